@@ -76,7 +76,7 @@ def check_C16(tier):
         cases += [("unwired", c) for c in unwired_cases(b)]
     # plain Run of workflows with out-ports nobody consumes (file and parameter out-ports, of processes and of components): they end in
     # the sink and must be drained - the workflow completes with every task of Expected
-    for d in (zoo.Z19(n=3), zoo.PC2S(n=4, buf=1), zoo.PC2S(n=8, buf=2), zoo.Z2(n=3), zoo.Z7(n=3)):
+    for d in (zoo.Z19(n=3), zoo.PC2S(n=4, buf=1), zoo.PC2S(n=8, buf=2), zoo.Z2(n=3), zoo.Z7(n=3), zoo.Z21(n=6, buf=2), zoo.Z21(n=5, buf=1)):
         d = dict(d); d["mode"] = "run"; d["targets"] = []
         cases.append(("runto", d))
     # closed model on a sample of the RunTo cases (the static wiring is evaluated for all of them by expected())
